@@ -14,7 +14,8 @@ Record snap := mkSnap {
   sn_active : list Z; sn_enact : list Z; sn_next_prop : Z;
   sn_ms : ms_snap;
   sn_id_records : list (Z * Z); sn_id_index : list (Z * Z); sn_id_last : Z;       (* identity registrar *)
-  sn_d_treasury : Z; sn_d_snap : Z; sn_d_votes : list (Z * Z); sn_d_proposer : Z (* distributor; proposer -1: none *) }.
+  sn_d_treasury : Z; sn_d_snap : Z; sn_d_votes : list (Z * Z); sn_d_proposer : Z (* distributor; proposer -1: none *);
+  sn_plan_due : bool (* a next upgrade plan exists whose upgrade time is not after the block time *) }.
 
 Inductive rstatus := RImported | RExportPanic (module : string) | RImportPanic (class : string).
 
@@ -68,6 +69,11 @@ Definition class_matches (c : c12_case) (pc : string * string) : bool :=
   if sdk_store store then true else
   match status_of store name with
   | SCovered =>
+      if (String.eqb store "upgrade" && String.eqb name "KeyNextPlan")%bool
+      then (* lost exactly when the plan is due and InitGenesis checks the time *)
+           (Bool.eqb (has_diff "lost" store name (cs_diffs c)) (sn_plan_due (cs_before c) && upgrade_import_checks_time)
+            && negb (has_diff "added" store name (cs_diffs c)) && negb (has_diff "changed" store name (cs_diffs c)))%bool
+      else
       (negb (has_diff "lost" store name (cs_diffs c)) && negb (has_diff "added" store name (cs_diffs c))
        && (if (String.eqb store "customgov" && String.eqb name "RolePermissionRegistry")%bool
            then Bool.eqb (has_diff "changed" store name (cs_diffs c)) (has_blacklist (cs_before c) && negb gov_restores_blacklists)
@@ -83,7 +89,8 @@ Definition diff_explained (c : c12_case) (d : string * string * string) : bool :
    match status_of store name with
    | SLost => String.eqb (fst (fst d)) "lost"
    | SDerived => negb (String.eqb (fst (fst d)) "changed")
-   | SCovered => (String.eqb (fst (fst d)) "changed" && String.eqb store "customgov" && String.eqb name "RolePermissionRegistry")%bool
+   | SCovered => ((String.eqb (fst (fst d)) "changed" && String.eqb store "customgov" && String.eqb name "RolePermissionRegistry")
+                  || (String.eqb (fst (fst d)) "lost" && String.eqb store "upgrade" && String.eqb name "KeyNextPlan"))%bool
    | _ => false end)%bool.
 
 Definition zmaxl (l : list Z) : Z := fold_right Z.max 0 l.
